@@ -35,12 +35,15 @@ BOUNDS = {"quick": {"registrations": "1 (all), 2 (reduced)", "passes": 2}, "thor
 CAP_S = {"quick": 300, "thorough": 2400}
 
 TERMS = [None, ["jmp", "A"], ["jcc", "A"], ["call", "A"], ["ret"], ["ijmp"], ["icall"], ["syscall"]]
-FUNCS = (("f", "f", "g"), ("f", "g", "g"), (None, "f", "f"), ("main", "main", "g"), ("f", "f", "f"), ("f", None, "g"), ("f", "g", None))
+FUNCS = (("f", "f", "g"), ("f", "g", "g"), (None, "f", "f"), ("main", "main", "g"), ("f", "f", "f"), ("f", None, "g"), ("f", "g", None),
+         # names with characters that mean something in a regular expression: a literal filter entry is compared, not matched
+         ("a.b", "axb", "c$d"))
 POS = ("ENTRY", "EXIT", "ANYWHERE")
 SCOPES = (
     ["all", None], ["all", "lit"], ["all", "re"], ["all", "main"], ["all", "ep"], ["all", "empty"],
     ["fn-entry", None], ["fn-exit", None], ["fn-entry", "lit-g"], ["fn-exit", "re"], ["fn-entry", "ep"],
     ["fn-entry", "empty"], ["fn-exit", "empty"], ["fn-entry", "nomatch"],
+    ["all", "lit-dot"], ["fn-entry", "lit-dot"], ["all", "lit-dollar"], ["fn-exit", "lit-dollar"],
     ["single", "A"], ["single", "B"], ["single", "C"],
 )
 
@@ -66,7 +69,7 @@ def build_scope(w, sc, pos):
     bp = getattr(BlockPosition, pos)
     kind, flt = sc
     fset = {None: None, "lit": {"F_f"}, "re": {re.compile("F_[fg]")}, "main": {MAIN_NAME}, "ep": {ENTRYPOINT_NAME}, "lit-g": {"F_g"},
-            "empty": set(), "nomatch": {"F_nope", re.compile("G_.*")}}.get(flt)
+            "lit-dot": {"F_a.b"}, "lit-dollar": {"F_c$d"}, "empty": set(), "nomatch": {"F_nope", re.compile("G_.*")}}.get(flt)
     if kind == "all":
         return AllBlocksScope(bp, fset)
     if kind == "fn-entry":
@@ -83,6 +86,10 @@ def func_matches(spec, fname, flt):
         return sym == "F_f"
     if flt == "lit-g":
         return sym == "F_g"
+    if flt == "lit-dot":
+        return sym == "F_a.b"
+    if flt == "lit-dollar":
+        return sym == "F_c$d"
     if flt == "re":
         return re.fullmatch("F_[fg]", sym) is not None
     if flt == "main":
@@ -250,10 +257,69 @@ def run_case(spec, regs):
     return diffs, ("ok" if not diffs else "diff"), ndes
 
 
+SPLIT_PATCH = [["p", 0], ["jcc", ".Lsp"], ["p", 0], ["lab", ".Lsp"], ["p", 0]]  # control flow of its own: splits the block it lands in
+
+
+def run_twice(spec, reg1, reg2, same_manager):
+    """Two PassManager runs on one IR: run 1 registers reg1 with a patch that splits blocks, run 2 registers reg2.
+    same_manager: both runs use ONE PassManager object; else a fresh one per run.  -> (canonical dump, log of run 2)"""
+    from gtirb_rewriting import Constraints, Pass, PassManager, Patch
+    from ..world import canon
+
+    w = Lg.build(spec)
+    if spec.get("entry_point"):
+        w.m.entry_point = w.blocks[spec["entry_point"]]
+    isa_ = w.isa
+    state = {"run": 0}
+    log = []
+    split_text = Lg.patch_text(isa_, scen.retag([{"op": "ins", "b": "A", "k": 0, "p": SPLIT_PATCH}])[0]["p"]).replace(".Lsp", ".Lsp")
+
+    class P(Pass):
+        def begin_module(self, module, functions, ctx):
+            sc, pos = (reg1, reg2)[state["run"]]
+            run = state["run"]
+
+            def asm(ic):
+                if run == 1:
+                    log.append((ic.block.address, ic.offset, ic.function.get_name() if ic.function else None))
+                    return isa_.asm(("p", 200 + len(log)))
+                return split_text
+
+            ctx.register_insert(build_scope(w, sc, pos), Patch.from_function(asm, Constraints()))
+
+    pm = PassManager()
+    pm.add(P())
+    pm.run(w.ir)
+    state["run"] = 1
+    if not same_manager:
+        pm = PassManager()
+        pm.add(P())
+    pm.run(w.ir)
+    return canon.dump(w.ir), sorted(log, key=str)
+
+
+def check_rerun(spec, reg1, reg2):
+    try:
+        a = run_twice(spec, reg1, reg2, True)
+        b = run_twice(spec, reg1, reg2, False)
+    except Exception as e:
+        return [C.D("passmanager-raised", r_exc=type(e).__name__, msg=str(e)[:100], r_family="rerun")], "raised"
+    diffs = []
+    if a[1] != b[1]:
+        diffs.append(C.D("second-run-of-one-manager-designates-differently", r_scope=reg2[0][0], r_pos=reg2[1], reused=a[1][:6], fresh=b[1][:6]))
+    elif a[0] != b[0]:
+        from ..world import canon
+
+        diffs.append(C.D("second-run-of-one-manager-differs", r_scope=reg2[0][0], detail=canon.diff(a[0], b[0])[:3]))
+    return diffs, ("rerun:ok" if not diffs else "rerun:diff") + ":%d" % len(a[1])
+
+
 def tasks(tier):
     t = []
     for ai, bi in itertools.product(range(len(TERMS)), repeat=2):
         t.append(("single", ai, bi))
+    for ai, bi in ((0, 4), (3, 1), (2, 0)) if tier == "quick" else itertools.product(range(len(TERMS)), repeat=2):
+        t.append(("rerun", ai, bi))
     for ai, bi in ((0, 4), (3, 1), (2, 5), (6, 0)) if tier == "quick" else itertools.product(range(len(TERMS)), repeat=2):
         t.append(("multi", ai, bi))
     # the offsets come from disassembly: repeat the single registrations on ARM64 (4-byte instructions)
@@ -287,6 +353,20 @@ def run_task(task):
                             res.bad({"ta": ai, "tb": bi, "funcs": fi, "functions": functions, "regs": [list(r) for r in regs], "target": target}, diffs)
         res.sample({"module": [ta, tb, list(FUNCS[0])], "regs": [[0, ["all", None], "EXIT"]]}, cap=1)
         return res
+    if mode == "rerun":
+        # run 1 puts a block-splitting patch at function entries / into every block; run 2 (same manager) designates again
+        first = [(["fn-entry", None], "ENTRY"), (["all", None], "ENTRY"), (["fn-exit", "lit"], "EXIT")]
+        second = [(sc, pos) for sc in SCOPES if sc[0] != "single" and sc[1] in (None, "lit", "re") for pos in POS]
+        for fi in (0, 1, 4):
+            spec = make_spec(ta, tb, FUNCS[fi], True)
+            for r1 in first:
+                for r2 in second:
+                    diffs, outcome = check_rerun(spec, r1, r2)
+                    res.case(("rerun", ai, bi, fi, r1, r2), nontrivial=not outcome.endswith(":0"), outcome=outcome[:9])
+                    if diffs:
+                        res.bad({"ta": ai, "tb": bi, "funcs": fi, "functions": True, "rerun": [list(r1), list(r2)]}, diffs)
+        res.sample({"module": [ta, tb, list(FUNCS[0])], "rerun": [[["fn-entry", None], "ENTRY"], [["fn-exit", None], "EXIT"]]}, cap=1)
+        return res
     # several registrations, 1-2 passes
     scs = [s for s in SCOPES if s in (["all", None], ["all", "lit"], ["all", "re"], ["fn-entry", None], ["fn-exit", None], ["single", "B"])]
     for fi in (0, 2):
@@ -306,5 +386,8 @@ def run_task(task):
 
 def replay(case):
     spec = make_spec(TERMS[case["ta"]], TERMS[case["tb"]], FUNCS[case["funcs"]], case["functions"], case.get("target", "x64-elf"))
+    if "rerun" in case:
+        r1, r2 = case["rerun"]
+        return check_rerun(spec, (r1[0], r1[1]), (r2[0], r2[1]))[0]
     regs = [tuple(r) for r in case["regs"]]
     return run_case(spec, regs)[0]
